@@ -92,6 +92,9 @@ EXPLANATION += c18_args.explanation(["get_args", "cmd"], "prepare_retrospective_
     "cast_dict_to_type, str_to_bool and the introspection functions are linked in Props/C18.v (their primitives are listed in C18's evidence).  "
     "Runtime: get_args() is run on generated command lines (kind cli_args): each <x>_cls is the class named, each <x>_params typed by THAT class's annotations, --holdout-fraction unchanged.  ")
 
+THEOREMS.update(c18_args.parser_theorems('C03', {'prepare_retrospective_simulation': ['fields', 'dests_derived', 'dests_distinct', 'seed', 'params'], 'reveal_plate': ['fields', 'dests_derived', 'dests_distinct']}))
+EXPLANATION += c18_args.parser_explanation(['prepare_retrospective_simulation', 'reveal_plate'])
+
 _CAUSE = {"reveal": "reveal", "cli_reveal": "reveal", "mask": "mask", "unmask": "unmask", "saveload": "saveload", "meta_cli": "saveload",
           "setobs": "setobs"}
 
@@ -196,6 +199,7 @@ def gen(rng, tier):
         yield dict(kind="prepare", screen=sd, gen=g, smooth=sm, init=ini, fraction=rng.choice([0.1, 0.25, 0.5, 0.5, 1.0]), seed=rng.randrange(10 ** 6))
     import c18_args
     yield from c18_args.gen_get_args(rng, tier, only="prepare_retrospective_simulation")
+    yield from c18_args.gen_parser(rng, tier, commands=["reveal_plate"])      # the other parser this property states theorems about
 
 
 def _features(desc, h):
